@@ -314,10 +314,6 @@ class Gen:
                 delta = 0 if d < 0.35 else rng.choice([1, 1, 2, 3, 5, 9, 11]) if d < 0.9 else rng.randrange(12, 120)
                 hi = min(U64 - 2, lo + delta)
                 w = rng.choice([0, 1, 1, 2, 3, 4]) if rng.random() < 0.95 else rng.choice([14, 15, 16, 20, 25])
-                if len(str(hi)) > w + 12:
-                    # hostrange_shift (used to compare lists) allocates strlen(prefix)+width+16 bytes: keep the numbers
-                    # inside it, as every record the parser creates does (width = digits of the low bound as typed)
-                    w = len(str(hi)) - rng.randrange(0, 12)
                 rec = Rec(pre, lo, hi, w, False)
             recs.append(rec)
             prev = rec
